@@ -90,12 +90,16 @@ class Configuration(object):
         """ Creates a new Configuration object from a textual dict
         """
         self.ike_configurations = {}
+        if not isinstance(conf_dict, dict):
+            raise ConfigurationError('The configuration must be a mapping of connection names to connections')
         for connection_name, ikeconfdict in conf_dict.items():
             try:
                 ikeconf = self._load_ike_conf(connection_name, ikeconfdict, my_addresses)
                 self.ike_configurations[(ikeconf.my_addr, ikeconf.peer_addr)] = ikeconf
             except KeyError as ex:
                 raise ConfigurationError(f'Mandatory parameter {ex} missing for connection "{connection_name}"')
+            except (AttributeError, TypeError, ValueError) as ex:
+                raise ConfigurationError(f'Invalid value in connection "{connection_name}": {ex}')
 
     def _load_ike_conf(self, name, conf_dict, my_addresses):
         encr = self._load_crypto_algs('encr', conf_dict.get('encr', ['aes256']), _encr_name_to_transform)
